@@ -8,3 +8,4 @@ def rules(ctx):
     S.c12_tree_rules(ctx)
     S.c11_rules(ctx)
     S.c01_r8_open_recovery(ctx)
+    S.walker_rules(ctx)
